@@ -259,6 +259,11 @@ def main(argv=None):
             from . import selftest
 
             extra, st_fail = selftest.run_for(prop, args.root, seed)
+            from . import clientscan
+
+            cs = clientscan.scan(prop, args.root)
+            if cs:
+                extra.update(cs)
             if st_fail:
                 raise AnalysisError('self-test of the checker failed: ' + '; '.join(st_fail))
         wall = time.time() - t0
